@@ -108,9 +108,9 @@ class DeviceIDMessage(MessagePayload):
 
     def pack(self, buffer: bytes = None, offset: int = 0, return_buffer: bool = True) -> (bytes, int):
         values = dict(self.__dict__)
-        values['hw_id_length'] = len(self.hw_id_length)
-        values['user_id_length'] = len(self.user_id_length)
-        values['receiver_id_length'] = len(self.receiver_id_length)
+        values['hw_id_length'] = len(self.hw_id_data)
+        values['user_id_length'] = len(self.user_id_data)
+        values['receiver_id_length'] = len(self.receiver_id_data)
         packed_data = self.DeviceIDMessageConstruct.build(values)
         return PackedDataToBuffer(packed_data, buffer, offset, return_buffer)
 
